@@ -1,7 +1,12 @@
 //! Socket driver: starts the REAL MemcacheTcpServer (accept loop, Client::handle, connection, codec,
 //! handler, store) on a loopback port and plays a script against it over TCP.
-//! stdin directives:  limit <u32> | timeout <secs> | send <hex> | sleep <ms> | recv <idle-ms> | shutdown_wr | close | conn | tick <secs>
-//! stdout events:     recv <hex> | eof | error <text>
+//! stdin directives:  limit <u32> | timeout <secs> | send <hex> | sleep <ms> | recv <idle-ms> | shutdown_wr | conn | tick <secs>
+//!                    conn        close the current connection (orderly) and open a new one
+//!                    conn_keep   open a new connection and keep the previous one open (it is not read any more)
+//!                    rst         reset the current connection (SO_LINGER 0 + close) and open a new one
+//!                    rstconn <n> n times: connect and reset at once, without sending a byte (the current connection stays)
+//!                    sendn <n> <hex>   send the same bytes n times without reading (a client that does not read)
+//! stdout events:     recv <hex> | eof | error <text> | conn
 use memcrs::memcache::builder::{MemcacheStoreBuilder, MemcacheStoreConfig};
 use memcrs::memcache::eviction_policy::EvictionPolicy;
 use memcrs::memcache_server::memc_tcp::{MemcacheServerConfig, MemcacheTcpServer};
@@ -10,6 +15,12 @@ use std::io::{BufRead, Read, Write};
 use std::net::TcpStream;
 use std::sync::Arc;
 use std::time::Duration;
+
+fn reset(s: TcpStream) {
+    let s2 = socket2::Socket::from(s);
+    let _ = s2.set_linger(Some(Duration::from_secs(0)));
+    drop(s2);
+}
 
 pub fn main(_args: &[String]) {
     let stdin = std::io::stdin();
@@ -41,6 +52,7 @@ pub fn main(_args: &[String]) {
     }
     let mut sock = match sock { Some(s) => s, None => { println!("error cannot connect"); return; } };
     sock.set_nodelay(true).unwrap();
+    let mut held: Vec<TcpStream> = Vec::new();
     for l in &lines {
         let w: Vec<&str> = l.split_whitespace().collect();
         if w.is_empty() { continue; }
@@ -49,6 +61,14 @@ pub fn main(_args: &[String]) {
                 let b = crate::unhex(w.get(1).copied().unwrap_or(""));
                 if let Err(e) = sock.write_all(&b) { println!("error send {}", e); }
                 let _ = sock.flush();
+            }
+            "sendn" => {
+                // a client that sends and never reads: the writes themselves must not block this driver for ever
+                let n: usize = w[1].parse().unwrap();
+                let b = crate::unhex(w.get(2).copied().unwrap_or(""));
+                sock.set_write_timeout(Some(Duration::from_millis(300))).unwrap();
+                for _ in 0..n { if sock.write_all(&b).is_err() { break; } }
+                sock.set_write_timeout(None).unwrap();
             }
             "sleep" => std::thread::sleep(Duration::from_millis(w[1].parse().unwrap())),
             "recv" => {
@@ -69,12 +89,20 @@ pub fn main(_args: &[String]) {
             }
             "tick" => { for _ in 0..w[1].parse::<u64>().unwrap() { clock.add_second(); } }
             "shutdown_wr" => { let _ = sock.shutdown(std::net::Shutdown::Write); }
-            "conn" => {
-                sock = TcpStream::connect(&addr).unwrap();
-                sock.set_nodelay(true).unwrap();
+            "conn" | "conn_keep" | "rst" => {
+                let fresh = match TcpStream::connect(&addr) { Ok(s) => s, Err(e) => { println!("error connect {}", e); continue; } };
+                fresh.set_nodelay(true).unwrap();
+                let old = std::mem::replace(&mut sock, fresh);
+                match w[0] { "conn_keep" => held.push(old), "rst" => reset(old), _ => drop(old) }
                 println!("conn");
+            }
+            "rstconn" => {
+                for _ in 0..w[1].parse::<usize>().unwrap() {
+                    if let Ok(s) = TcpStream::connect(&addr) { reset(s); }
+                }
             }
             _ => {}
         }
     }
+    drop(held);
 }
